@@ -1,7 +1,7 @@
 #!/bin/sh
 # usage: tools/runall.sh quick|thorough   — runs every registered check of that tier, sequentially
 TIER=${1:-quick}
-cd /verif
+V=${VERIF_DIR:-/verif}; cd $V
 rc=0
 for p in $(python3 -c "import json;print(' '.join(c['property_id'] for c in json.load(open('MANIFEST.json'))['checks']))"); do
   VERIF_TIER=$TIER bin/simcheck run -property $p -tier $TIER 2>&1 | grep -E "^simcheck: C|VIOLATION|KNOWN-FINDING|NONDET|tool|watchdog" 
